@@ -172,6 +172,7 @@ def run(ctx, scratch):
                     _cmp(ctx, name, a, h, case, 'refit', 'refit after an earlier fit on a %s input differs from a freshly constructed estimator' % kind0)
         _state_probes(ctx, main, desc, nmax, quick)
         _gnn_validation(ctx, main, nmax, quick)
+        _n_jobs(ctx, main, quick)
         _static_facts(ctx)
         # ---- (f) set_params histories: an object constructed with OTHER parameter values, fitted, then given the target values
         #      with set_params and refitted must equal an estimator constructed with the target values (a value derived from
@@ -384,6 +385,45 @@ def _gnn_validation(ctx, main, nmax, quick):
         for attr, what, detail in r['diff'][:3]:
             ctx.violation('GNNClassifier', 'refit with reinit=True and a validation split differs from a fresh classifier on %s: %s'
                           % (attr, detail[:300]), case=case, entry='GNNClassifier', kind='state', attr=attr, observed=detail[:300])
+
+
+def _n_jobs(ctx, main, quick):
+    """PageRankClassifier with n_jobs > 1 (the only estimator with a pool of its own): same labels and probabilities as the
+    sequential classifier, on every repetition."""
+    rng = ctx.rng
+    for rep in range(6 if quick else 30):
+        # a ring of small cliques, one seed (its own class) in most of them: many classes = many pool tasks
+        k, c = rng.randint(6, 14), rng.randint(2, 4)
+        n = k * c
+        E = set()
+        for b in range(k):
+            for i in range(c):
+                for j in range(i + 1, c):
+                    E.add((b * c + i, b * c + j))
+            E.add((b * c + c - 1, ((b + 1) % k) * c))
+        coo = sorted([i, j, 1] for (a_, b_) in E for (i, j) in ((a_, b_), (b_, a_)))
+        labels = [-1] * n
+        cls = 0
+        for b in range(k):
+            if rng.random() < 0.85:
+                labels[b * c + rng.randrange(c)] = cls
+                cls += 1
+        if cls < 2:
+            continue
+        args = dict(m=dict(shape=[n, n], coo=coo, dtype='int', fmt='csr'), labels=labels, n_jobs=rng.choice([2, 4, 8, -1]),
+                    repeat=4 if quick else 8)
+        r = main.call('c16', 'n_jobs', args, timeout=180)
+        ctx.traces += args['repeat'] + 1
+        ctx.count('PageRankClassifier:n_jobs', ('n_jobs', repr(args)), True)
+        if 'ok' not in r:
+            if 'hang' in r or 'crash' in r:
+                ctx.violation('PageRankClassifier', 'fit with n_jobs=%r does not return' % args['n_jobs'], case=dict(name='PageRankClassifier', family='n_jobs', **args),
+                              entry='PageRankClassifier', kind='pool', observed={k_: r[k_] for k_ in r if k_ != 'tb'})
+            continue
+        for which, detail in r['ok']['diff'][:2]:
+            ctx.violation('PageRankClassifier', 'fit with n_jobs=%r differs from the sequential fit on the same input (repetition %d): %s'
+                          % (args['n_jobs'], which, detail[:300]), case=dict(name='PageRankClassifier', family='n_jobs', **args),
+                          entry='PageRankClassifier', kind='pool', observed=detail[:300])
 
 
 def _static_facts(ctx):
